@@ -91,6 +91,8 @@ pub fn leak_str(s: &str) -> &'static str {
     Box::leak(s.to_string().into_boxed_str())
 }
 
+pub static LAST_PANIC_GLOBAL: std::sync::Mutex<String> = std::sync::Mutex::new(String::new());
+
 thread_local! {
     pub static LAST_PANIC: std::cell::RefCell<String> = const { std::cell::RefCell::new(String::new()) };
 }
@@ -100,6 +102,9 @@ fn install_panic_hook() {
         let loc = info.location().map(|l| format!("{}:{}", l.file(), l.line())).unwrap_or_default();
         if std::env::var_os("CCSIM_DEBUG").is_some() {
             eprintln!("panic at {}: {:?}", loc, info.payload().downcast_ref::<&str>().map(|s| s.to_string()).or(info.payload().downcast_ref::<String>().cloned()));
+        }
+        if let Ok(mut g) = LAST_PANIC_GLOBAL.try_lock() {
+            *g = loc.clone();
         }
         let _ = LAST_PANIC.try_with(|l| {
             if let Ok(mut l) = l.try_borrow_mut() {
@@ -121,11 +126,45 @@ pub fn on_run_thread<R: Send + 'static>(f: impl FnOnce() -> R + Send + 'static) 
     let h = std::thread::Builder::new().stack_size(16 << 20).spawn(f).expect("spawn");
     match h.join() {
         Ok(r) => r,
-        Err(_) => {
-            eprintln!("HARNESS-ERROR: the run thread panicked outside any operation");
+        Err(p) => {
+            let loc = LAST_PANIC_GLOBAL.lock().map(|g| g.clone()).unwrap_or_default();
+            if loc.starts_with("/repo/") || loc.contains("/rust-cc/") {
+                println!("@@VIOLATION property=C07 oracle=O-CONTAIN.stray-panic op=? msg=the crate panicked outside any operation of the program (at {}): {}", loc, exec::panic_message(&p));
+                use std::io::Write;
+                let _ = std::io::stdout().flush();
+                std::process::exit(3);
+            }
+            eprintln!("HARNESS-ERROR: the run thread panicked outside any operation (at {})", loc);
             std::process::exit(2);
         }
     }
+}
+
+/// Wall-clock watchdog: a run that does not finish within the limit is reported as non-termination (C06) and the
+/// process exits; the clock never feeds back into a run.
+pub static RUN_STARTED_MS: std::sync::atomic::AtomicU64 = std::sync::atomic::AtomicU64::new(0);
+pub static RUN_LABEL: std::sync::atomic::AtomicU64 = std::sync::atomic::AtomicU64::new(0);
+
+fn now_ms() -> u64 {
+    use std::time::{SystemTime, UNIX_EPOCH};
+    SystemTime::now().duration_since(UNIX_EPOCH).map(|d| d.as_millis() as u64).unwrap_or(0)
+}
+
+pub fn start_watchdog() {
+    let limit_ms: u64 = std::env::var("CCSIM_RUN_TIMEOUT_MS").ok().and_then(|s| s.parse().ok()).unwrap_or(20_000);
+    std::thread::Builder::new()
+        .name("watchdog".into())
+        .spawn(move || loop {
+            std::thread::sleep(std::time::Duration::from_millis(500));
+            let st = RUN_STARTED_MS.load(std::sync::atomic::Ordering::Relaxed);
+            if st != 0 && now_ms().saturating_sub(st) > limit_ms {
+                println!("@@VIOLATION property=C06 oracle=O-TERM.hang op=? msg=a single run did not finish within {} ms of wall-clock time (non-termination or livelock)", limit_ms);
+                use std::io::Write;
+                let _ = std::io::stdout().flush();
+                std::process::exit(3);
+            }
+        })
+        .expect("watchdog");
 }
 
 /// Runs one program on the current (run) thread: clean collector state, allocator quarantine window around it.
@@ -134,10 +173,12 @@ pub fn run_isolated(prog: &Program, prop: &'static str, verbose: bool) -> RunRes
         return threads::run_threads(prog, prop, verbose);
     }
     // every run starts from the initial collector state of a fresh thread
+    RUN_STARTED_MS.store(now_ms(), std::sync::atomic::Ordering::Relaxed);
     rust_cc::verif::reset_thread_state();
     alloc::begin_run();
     let mut res = run_program(prog, prop, verbose);
     alloc::end_run();
+    RUN_STARTED_MS.store(0, std::sync::atomic::Ordering::Relaxed);
     if let Some(v) = alloc::take_violation() {
         if res.violation.is_none() {
             let property = if prop == "C03" || prop == "C07" { prop } else { "C01" };
@@ -171,6 +212,7 @@ fn cmd_batch(a: &Args) {
     let from = a.num("from", 0);
     let to = a.num("to", 100);
     let sweep_points = a.num("sweep", 0);
+    let scale = a.num("scale", 1).max(1);
     let mut total = Stats::default();
     let mut hashes: Vec<u64> = Vec::new();
     let mut all_hashes: Vec<u64> = Vec::new();
@@ -192,7 +234,7 @@ fn cmd_batch(a: &Args) {
                     let _ = writeln!(o, "@@START {}", idx);
                     let _ = o.flush();
                 }
-                let prog = gen::generate(&profile2, seed, idx);
+                let prog = gen::generate_scaled(&profile2, seed, idx, scale);
                 if sweep_points > 0 {
                     let viol = sweep::sweep_program(&prog, prop, sweep_points as usize, &mut total, &mut hashes, &mut samples);
                     if viol {
@@ -266,6 +308,7 @@ fn report(res: &RunResult, verbose: bool) -> i32 {
 
 fn main() {
     install_panic_hook();
+    start_watchdog();
     let a = parse_args();
     if a.pos.is_empty() {
         usage();
@@ -275,7 +318,7 @@ fn main() {
         "exec" => {
             let profile = a.get("profile").unwrap_or_else(|| usage());
             let prop = leak_str(a.get("prop").unwrap_or("C01"));
-            let prog = gen::generate(profile, a.num("seed", 1), a.num("index", 0));
+            let prog = gen::generate_scaled(profile, a.num("seed", 1), a.num("index", 0), a.num("scale", 1).max(1));
             if a.has("print") {
                 print!("{}", prog.to_text());
             }
@@ -285,7 +328,7 @@ fn main() {
         }
         "gen" => {
             let profile = a.get("profile").unwrap_or_else(|| usage());
-            print!("{}", gen::generate(profile, a.num("seed", 1), a.num("index", 0)).to_text());
+            print!("{}", gen::generate_scaled(profile, a.num("seed", 1), a.num("index", 0), a.num("scale", 1).max(1)).to_text());
         }
         "replay" => {
             let file = a.pos.get(1).unwrap_or_else(|| usage());
